@@ -43,7 +43,6 @@ SBML_DOT = "__SBML_DOT__"
 
 UNARY = {
     "sqrt": libsbml.AST_FUNCTION_ROOT,
-    "remainder": libsbml.AST_FUNCTION_REM,
     "abs": libsbml.AST_FUNCTION_ABS,
     "ceil": libsbml.AST_FUNCTION_CEILING,
     "sin": libsbml.AST_FUNCTION_SIN,
@@ -64,6 +63,7 @@ UNARY = {
 
 BINARY = {
     "power": libsbml.AST_POWER,
+    "remainder": libsbml.AST_FUNCTION_REM,
 }
 
 NARY = {
@@ -182,6 +182,17 @@ def _convert_ifexp(node: ast.IfExp) -> libsbml.ASTNode:
 
 
 def _unary_call(func: str, typ: int, node: ast.Call) -> libsbml.ASTNode:
+    if func == "log" and len(node.args) == 2 and not node.keywords:
+        # math.log(x, base). MathML log takes the base as its first child
+        sbml_node = libsbml.ASTNode(libsbml.AST_FUNCTION_LOG)
+        sbml_node.addChild(_convert_node(node.args[1]))
+        sbml_node.addChild(_convert_node(node.args[0]))
+        return sbml_node
+    if len(node.args) != 1 or node.keywords:
+        # Writing only the first argument would be a different function
+        msg = f"Function call {func} with {len(node.args)} arguments"
+        raise NotImplementedError(msg)
+
     sbml_node = libsbml.ASTNode(typ)
     if func == "log10":
         # MathML log takes the base as its first child
